@@ -330,6 +330,9 @@ def run(chk, tier):
     db = D.load("checks")
     from ..rules import params as _PR
     _PR.check(chk, db, ['_optional/', '_variant/', '_expected/'], floor=40)
+    from ..rules import sibs as _SB
+    _SB.check(chk, db, ['_optional/', '_variant/', '_expected/'])      # SIB: cv/ref-qualified overloads of one member agree
+    _SB.positive_control(chk)
     nrel = rel.check(chk, db, ["_optional/optional.hpp", "_variant/variant.hpp", "_expected/unexpected.hpp"])
     if nrel < 22:
         chk.analysis_broken("REL: only %d optional/variant operators modelled (floor 22)" % nrel)
